@@ -193,38 +193,46 @@ impl SetOperations {
         let num_ways = iterators.len();
         let mut result = Vec::new();
         
-        // Convert iterators to way iterators for the tournament tree
-        let mut tree = EnhancedLoserTree::new(crate::algorithms::LoserTreeConfig::default());
+        // Convert iterators to way iterators for the tournament tree; every element is tagged
+        // with its way so that "present in k ways" is not confused with "k times in one way"
+        let mut tree = EnhancedLoserTree::with_comparator(
+            crate::algorithms::LoserTreeConfig::default(),
+            |a: &(T, usize), b: &(T, usize)| a.0.cmp(&b.0),
+        );
         
-        for iterator in iterators {
-            tree.add_way(iterator)?;
+        for (way, iterator) in iterators.into_iter().enumerate() {
+            tree.add_way(iterator.map(move |value| (value, way)))?;
         }
         
         tree.initialize()?;
 
         // Process elements using the tournament tree
         let mut current_key: Option<T> = None;
-        let mut count = 0;
+        // Occurrences of the current key per way; the key belongs to the (multiset)
+        // intersection min-count times, exactly as in the bit mask variant
+        let mut per_way = vec![0usize; num_ways];
 
         while !tree.is_empty() {
-            if let Some(value) = tree.pop()? {
+            if let Some((value, way)) = tree.pop()? {
                 match &current_key {
                     None => {
                         current_key = Some(value.clone());
-                        count = 1;
+                        per_way[way] = 1;
                     }
                     Some(key) => {
                         match value.cmp(key) {
                             Ordering::Equal => {
-                                count += 1;
+                                per_way[way] += 1;
                             }
                             Ordering::Greater => {
                                 // Check if previous key appeared in all ways
-                                if count == num_ways {
+                                let copies = per_way.iter().copied().min().unwrap_or(0);
+                                for _ in 0..copies {
                                     result.push(key.clone());
                                 }
                                 current_key = Some(value.clone());
-                                count = 1;
+                                per_way.iter_mut().for_each(|c| *c = 0);
+                                per_way[way] = 1;
                             }
                             Ordering::Less => {
                                 return Err(ZiporaError::invalid_data("Input sequences not properly sorted"));
@@ -238,8 +246,9 @@ impl SetOperations {
 
         // Check the last key
         if let Some(key) = current_key {
-            if count == num_ways {
-                result.push(key);
+            let copies = per_way.iter().copied().min().unwrap_or(0);
+            for _ in 0..copies {
+                result.push(key.clone());
             }
         }
 
